@@ -22,9 +22,13 @@ CONSTANTS NG, NO, ND, NP,     \* slot counts
           Deviations,         \* named as-built deviations, {} = Ideal
           MaxDepth
 
-VARIABLES mem, kids, pg, reg, fnode, flink, fpg, held, mode, last
-vw   == <<mem, kids, pg, reg, fnode, flink, fpg, held, mode>>
-vars == <<mem, kids, pg, reg, fnode, flink, fpg, held, mode, last>>
+VARIABLES mem, kids, pg, reg, fnode, flink, fpg, held, mode, last,
+          dirty,   \* data slots left half-written by a failed operation (node without values, not linked yet)
+          fopt,    \* per stored node: are the optional scalar attributes present (a foreign writer may omit them)
+          saved    \* save_as was used (at most once per behaviour)
+vw   == <<mem, kids, pg, reg, fnode, flink, fpg, held, mode, dirty, fopt, saved>>
+vars == <<mem, kids, pg, reg, fnode, flink, fpg, held, mode, dirty, fopt, saved, last>>
+Aux  == <<dirty, fopt, saved>>
 
 Root == 0
 GS == 1..NG
@@ -105,6 +109,9 @@ Init ==
     /\ fpg = [p \in PS |-> NoPG]
     /\ held = {}
     /\ mode = "r+"
+    /\ dirty = {}
+    /\ fopt = [s \in ES |-> TRUE]
+    /\ saved = FALSE
     /\ last = [act |-> "Init", args |-> [x |-> 0], out |-> "ok", foot |-> {}]
 
 \* ======================= creation
@@ -116,27 +123,28 @@ Birth(s, p, n, v) ==
     /\ reg' = [reg EXCEPT ![s] = "live"]
     /\ fnode' = [fnode EXCEPT ![s] = [on |-> TRUE, name |-> n, flag |-> TRUE, val |-> v]]
     /\ flink' = flink \cup {<<p, s>>}
+    /\ fopt' = [fopt EXCEPT ![s] = TRUE]
 
 CreateGroup(p, n) ==
     /\ Do("CreateGroup") /\ Writable /\ p \in Att \cap ({Root} \cup GS) /\ FreeSet(GS) # {}
     /\ LET s == Lowest(FreeSet(GS)) IN
          /\ Birth(s, p, n, 0)
          /\ Ok("CreateGroup", [s |-> s, p |-> p, n |-> n], {s, p})
-    /\ UNCHANGED <<pg, fpg, held, mode>>
+    /\ UNCHANGED <<pg, fpg, held, mode, dirty, saved>>
 
 CreateObject(p, n) ==
     /\ Do("CreateObject") /\ Writable /\ p \in Att \cap ({Root} \cup GS) /\ FreeSet(OS) # {}
     /\ LET s == Lowest(FreeSet(OS)) IN
          /\ Birth(s, p, n, 0)
          /\ Ok("CreateObject", [s |-> s, p |-> p, n |-> n], {s, p})
-    /\ UNCHANGED <<pg, fpg, held, mode>>
+    /\ UNCHANGED <<pg, fpg, held, mode, dirty, saved>>
 
 AddData(o, n, v) ==                                \* ObjectBase.add_data (object_base.py:125-180)
     /\ Do("AddData") /\ Writable /\ o \in Att \cap OS /\ FreeSet(DS) # {}
     /\ LET s == Lowest(FreeSet(DS)) IN
          /\ Birth(s, o, n, v)
          /\ Ok("AddData", [s |-> s, p |-> o, n |-> n, v |-> v], {s, o})
-    /\ UNCHANGED <<pg, fpg, held, mode>>
+    /\ UNCHANGED <<pg, fpg, held, mode, dirty, saved>>
 
 \* explicit identifier (C06): refused when the uid is in use by any live entity of any kind
 \* (workspace.py create_entity pre-check + weakref_utils.insert_once); accepted when the uid is free again
@@ -144,42 +152,44 @@ CreateWithUid(u, p, n) ==
     /\ Do("CreateWithUid") /\ Writable /\ u \in GS \cup OS /\ p \in Att \cap ({Root} \cup GS)
     /\ IF Live(u)
        THEN /\ Refused("CreateWithUid", [s |-> u, p |-> p, n |-> n], "RuntimeError")
-            /\ UNCHANGED <<mem, kids, pg, reg, fnode, flink, fpg, held, mode>>
+            /\ UNCHANGED <<mem, kids, pg, reg, fnode, flink, fpg, held, mode, Aux>>
        ELSE /\ ~fnode[u].on /\ u \notin held /\ \A l \in flink : l[1] # u /\ l[2] # u
             /\ Birth(u, p, n, 0)
             /\ Ok("CreateWithUid", [s |-> u, p |-> p, n |-> n], {u, p})
-            /\ UNCHANGED <<pg, fpg, held, mode>>
+            /\ UNCHANGED <<pg, fpg, held, mode, dirty, saved>>
 
 \* ======================= write-through setters
 \* Entity.name / allow_delete setters -> Workspace.update_attribute -> H5Writer.update_field
 \* (entity.py:77-100,251-260; workspace.py:1359-1389)
 Rename(s, n) ==
-    /\ Do("Rename") /\ Writable /\ s \in Att \cap ES /\ mem[s].name # n
+    /\ Do("Rename") /\ Writable /\ s \in Att \cap ES /\ mem[s].name # n /\ s \notin dirty
     /\ mem' = [mem EXCEPT ![s].name = n]
     /\ fnode' = [fnode EXCEPT ![s].name = n]
+    /\ fopt' = [fopt EXCEPT ![s] = TRUE]      \* H5Writer.write_attributes rewrites every scalar attribute (h5_writer.py:303-361)
     /\ Ok("Rename", [s |-> s, n |-> n], {s})
-    /\ UNCHANGED <<kids, pg, reg, flink, fpg, held, mode>>
+    /\ UNCHANGED <<kids, pg, reg, flink, fpg, held, mode, dirty, saved>>
 
 SetFlag(s, b) ==                                   \* allow_delete
-    /\ Do("SetFlag") /\ Writable /\ s \in Att \cap ES /\ mem[s].flag # b
+    /\ Do("SetFlag") /\ Writable /\ s \in Att \cap ES /\ mem[s].flag # b /\ s \notin dirty
     /\ mem' = [mem EXCEPT ![s].flag = b]
     /\ fnode' = [fnode EXCEPT ![s].flag = b]
+    /\ fopt' = [fopt EXCEPT ![s] = TRUE]
     /\ Ok("SetFlag", [s |-> s, b |-> b], {s})
-    /\ UNCHANGED <<kids, pg, reg, flink, fpg, held, mode>>
+    /\ UNCHANGED <<kids, pg, reg, flink, fpg, held, mode, dirty, saved>>
 
 SetVal(d, v) ==                                    \* Data.values setter (data/data.py, numeric_data.py)
-    /\ Do("SetVal") /\ Writable /\ d \in Att \cap DS /\ mem[d].val # v
+    /\ Do("SetVal") /\ Writable /\ d \in Att \cap DS /\ mem[d].val # v /\ d \notin dirty
     /\ mem' = [mem EXCEPT ![d].val = v]
     /\ fnode' = [fnode EXCEPT ![d].val = v]
     /\ Ok("SetVal", [s |-> d, v |-> v], {d})
-    /\ UNCHANGED <<kids, pg, reg, flink, fpg, held, mode>>
+    /\ UNCHANGED <<kids, pg, reg, flink, fpg, held, mode, Aux>>
 
 \* ======================= re-parenting
 \* Entity.parent setter (entity.py:268-286): add to the new parent, unlink from the old one
 \* (memory + file link), re-save (link under the new parent).  A data leaving an object is
 \* scrubbed from that object's property groups (object_base.py:497-523).
 Move(s, p) ==
-    /\ Do("Move") /\ Writable /\ s \in Att \cap ES
+    /\ Do("Move") /\ Writable /\ s \in Att \cap ES /\ Sub(s) \cap dirty = {}
     /\ p \in Att /\ p # mem[s].par /\ p \notin Sub(s)
     /\ IF s \in DS THEN p \in OS ELSE p \in {Root} \cup GS
     /\ LET old == mem[s].par IN
@@ -189,14 +199,45 @@ Move(s, p) ==
          /\ pg' = IF s \in DS THEN Scrub(pg, {s}) ELSE pg
          /\ fpg' = IF s \in DS THEN Scrub(fpg, {s}) ELSE fpg
          /\ Ok("Move", [s |-> s, p |-> p], {s, p, old})
-    /\ UNCHANGED <<reg, fnode, held, mode>>
+    /\ UNCHANGED <<reg, fnode, held, mode, Aux>>
+
+\* assigning the parent an entity already has is a no-op (entity.py:268-286: `current_parent != self._parent`)
+MoveSame(s) ==
+    /\ Do("MoveSame") /\ Writable /\ s \in Att \cap ES /\ s \notin dirty
+    /\ Ok("MoveSame", [s |-> s, p |-> mem[s].par], {})
+    /\ UNCHANGED <<mem, kids, pg, reg, fnode, flink, fpg, held, mode, Aux>>
+
+\* an operation that fails half-way (crash point inside add_data: the values cannot be written, e.g. an invalid
+\* compression level): the data entity is registered and attached in memory, its node exists in the flat container
+\* with attributes but no values and is NOT yet linked under its parent (h5_writer.py:686-752 write_entity raises in
+\* write_properties before write_to_parent runs).  The final save of Workspace.close repairs the link.
+AddDataFails(o, n) ==
+    /\ Do("AddDataFails") /\ Writable /\ o \in Att \cap OS /\ o \notin dirty /\ FreeSet(DS) # {} /\ dirty = {}
+    /\ LET s == Lowest(FreeSet(DS)) IN
+         \* the entity keeps the values it was given in memory (token 1); the node has none (token 0)
+         /\ mem' = [mem EXCEPT ![s] = [par |-> o, name |-> n, flag |-> TRUE, val |-> 1]]
+         /\ kids' = [kids EXCEPT ![o] = @ \cup {s}]
+         /\ reg' = [reg EXCEPT ![s] = "live"]
+         /\ fnode' = [fnode EXCEPT ![s] = [on |-> TRUE, name |-> n, flag |-> TRUE, val |-> 0]]
+         /\ fopt' = [fopt EXCEPT ![s] = TRUE]
+         /\ dirty' = dirty \cup {s}
+         /\ last' = [act |-> "AddDataFails", args |-> [s |-> s, p |-> o, n |-> n], out |-> "ValueError", foot |-> {s}]
+    /\ UNCHANGED <<pg, fpg, flink, held, mode, saved>>
+
+\* a foreign writer (or an older version) may omit optional scalar attributes of a node: the harness strips them with
+\* raw h5py while the workspace is closed.  Nothing but a rewrite of that node's attributes may bring them back (C09).
+StripOpt(s) ==
+    /\ Do("StripOpt") /\ mode = "closed" /\ s \in ES /\ fnode[s].on /\ fopt[s] /\ s \in FReach
+    /\ fopt' = [fopt EXCEPT ![s] = FALSE]
+    /\ Ok("StripOpt", [s |-> s], {s})
+    /\ UNCHANGED <<mem, kids, pg, reg, fnode, flink, fpg, held, mode, dirty, saved>>
 
 \* ======================= property groups
 \* ObjectBase.add_data_to_group(data, name): find the group by name or create it, add the data
 \* (object_base.py:182-231, property_group.py:76-98)
 PGsOf(o) == {p \in PS : pg[p].owner = o}
 AddToGroup(o, d, n) ==
-    /\ Do("AddToGroup") /\ Writable /\ o \in Att \cap OS /\ d \in kids[o]
+    /\ Do("AddToGroup") /\ Writable /\ o \in Att \cap OS /\ d \in kids[o] /\ d \notin dirty
     /\ LET same == {p \in PGsOf(o) : pg[p].name = n} IN
        IF same # {}
        THEN LET p == Lowest(same) IN
@@ -209,7 +250,7 @@ AddToGroup(o, d, n) ==
                /\ pg' = [pg EXCEPT ![p] = [owner |-> o, name |-> n, props |-> {d}]]
                /\ fpg' = [fpg EXCEPT ![p] = [owner |-> o, name |-> n, props |-> {d}]]
                /\ Ok("AddToGroup", [o |-> o, d |-> d, n |-> n, p |-> p], {o})
-    /\ UNCHANGED <<mem, kids, reg, fnode, flink, held, mode>>
+    /\ UNCHANGED <<mem, kids, reg, fnode, flink, held, mode, Aux>>
 
 RemoveFromGroup(p, d) ==                           \* PropertyGroup.remove_properties
     /\ Do("RemoveFromGroup") /\ Writable /\ p \in PS /\ pg[p].owner \in Att /\ d \in pg[p].props
@@ -217,7 +258,7 @@ RemoveFromGroup(p, d) ==                           \* PropertyGroup.remove_prope
     /\ pg' = [q \in PS |-> IF q = p THEN Scrub(pg, {d})[p] ELSE pg[q]]
     /\ fpg' = [q \in PS |-> IF q = p THEN Scrub(fpg, {d})[p] ELSE fpg[q]]
     /\ Ok("RemoveFromGroup", [p |-> p, d |-> d, o |-> pg[p].owner], {pg[p].owner})
-    /\ UNCHANGED <<mem, kids, reg, fnode, flink, held, mode>>
+    /\ UNCHANGED <<mem, kids, reg, fnode, flink, held, mode, Aux>>
 
 \* ======================= garbage collection
 \* entities not strongly reachable from the root or from a handle the caller holds die;
@@ -233,13 +274,13 @@ Collect ==
     /\ Do("Collect") /\ Dying({}) # {}
     /\ AfterGC(mem, kids, pg, reg, Dying({}))
     /\ Ok("Collect", [dying |-> Dying({})], {})
-    /\ UNCHANGED <<fnode, flink, fpg, held, mode>>
+    /\ UNCHANGED <<fnode, flink, fpg, held, mode, Aux>>
 
 DropRef(s) ==
     /\ Do("DropRef") /\ s \in held
     /\ held' = held \ {s}
     /\ Ok("DropRef", [s |-> s], {})
-    /\ UNCHANGED <<mem, kids, pg, reg, fnode, flink, fpg, mode>>
+    /\ UNCHANGED <<mem, kids, pg, reg, fnode, flink, fpg, mode, Aux>>
 
 \* reading ws.groups / ws.objects / ws.data purges the file nodes of dead registry entries
 \* (workspace.py:152-175,631-648 remove_none_referents -> H5Writer.remove_entity)
@@ -254,7 +295,7 @@ Purge(kind) ==
        /\ flink' = {l \in flink : l[1] \notin S}
        /\ fpg' = DropOwners(fpg, S)
        /\ Ok("Purge", [kind |-> kind, gone |-> S], S)
-    /\ UNCHANGED <<mem, kids, pg, held, mode>>
+    /\ UNCHANGED <<mem, kids, pg, held, mode, Aux>>
 
 \* ws.get_entity(uid) on a dead reference silently drops the registry entry without touching the
 \* file (weakref_utils.get_clean_ref, workspace.py:910-954): afterwards no purge can reach the node
@@ -262,7 +303,7 @@ LookupDead(s) ==
     /\ Do("LookupDead") /\ mode # "closed" /\ s \in ES /\ reg[s] = "dead"
     /\ reg' = [reg EXCEPT ![s] = "none"]
     /\ Ok("LookupDead", [s |-> s], {})
-    /\ UNCHANGED <<mem, kids, pg, fnode, flink, fpg, held, mode>>
+    /\ UNCHANGED <<mem, kids, pg, fnode, flink, fpg, held, mode, Aux>>
 
 \* ======================= removal
 \* Workspace.remove_entity (workspace.py:602-658): refused when allow_delete is off; otherwise
@@ -270,11 +311,11 @@ LookupDead(s) ==
 \* nodes, then gc.collect().  The caller still holds the handle it passed in (held) until DropRef.
 \* Detached descendants keep their _parent pointer (they pin their ancestors, not conversely).
 RemoveViaWorkspace(s) ==
-    /\ Do("RemoveViaWorkspace") /\ Writable /\ s \in Att \cap ES
+    /\ Do("RemoveViaWorkspace") /\ Writable /\ s \in Att \cap ES /\ Sub(s) \cap dirty = {}
     /\ \A x \in Sub(s) \ {s} : mem[x].flag              \* protected descendants: outside the model
     /\ IF ~mem[s].flag
        THEN /\ Refused("RemoveViaWorkspace", [s |-> s], "UserWarning")
-            /\ UNCHANGED <<mem, kids, pg, reg, fnode, flink, fpg, held, mode>>
+            /\ UNCHANGED <<mem, kids, pg, reg, fnode, flink, fpg, held, mode, Aux>>
        ELSE LET D == Sub(s)
                 par == mem[s].par
                 k1 == [c \in Cont |-> IF c \in D THEN {} ELSE IF c = par THEN kids[c] \ {s} ELSE kids[c]]
@@ -288,13 +329,13 @@ RemoveViaWorkspace(s) ==
             /\ fpg' = Scrub(DropOwners(fpg, D), D \cap DS)
             /\ AfterGC(mem, k1, g1, reg, dy)
             /\ Ok("RemoveViaWorkspace", [s |-> s], D \cup {par})
-            /\ UNCHANGED mode
+            /\ UNCHANGED <<mode, Aux>>
 
 \* EntityContainer.remove_children / ObjectBase.remove_children (entity_container.py:222-240,
 \* object_base.py:497-523) -> Workspace.remove_children -> H5Writer.remove_child: unlink only.
 \* The flat node stays until the entity has been garbage collected AND a registry is read (Purge).
 RemoveViaParent(s) ==
-    /\ Do("RemoveViaParent") /\ Writable /\ s \in Att \cap ES
+    /\ Do("RemoveViaParent") /\ Writable /\ s \in Att \cap ES /\ Sub(s) \cap dirty = {}
     /\ LET par == mem[s].par IN
          /\ kids' = [kids EXCEPT ![par] = @ \ {s}]
          /\ flink' = flink \ {<<par, s>>}
@@ -302,20 +343,20 @@ RemoveViaParent(s) ==
          /\ fpg' = IF s \in DS THEN Scrub(fpg, {s}) ELSE fpg
          /\ held' = held \cup {s}
          /\ Ok("RemoveViaParent", [s |-> s], {par})
-    /\ UNCHANGED <<mem, reg, fnode, mode>>
+    /\ UNCHANGED <<mem, reg, fnode, mode, Aux>>
 
 RemovePG(p) ==                                     \* ws.remove_entity(property_group)
     /\ Do("RemovePG") /\ Writable /\ p \in PS /\ pg[p].owner \in Att
     /\ pg' = [pg EXCEPT ![p] = NoPG] /\ fpg' = [fpg EXCEPT ![p] = NoPG]
     /\ Ok("RemovePG", [p |-> p, o |-> pg[p].owner], {pg[p].owner})
-    /\ UNCHANGED <<mem, kids, reg, fnode, flink, held, mode>>
+    /\ UNCHANGED <<mem, kids, reg, fnode, flink, held, mode, Aux>>
 
 \* ======================= copy
 \* Entity.copy -> Workspace.copy_to_parent (workspace.py:231-339; object_base.py:255-311;
 \* groups/base.py:114-153; data/data.py:66-117).  Same workspace: fresh identifiers for the entity,
 \* every copied child and every property group; property groups reference the copied children.
 Copy(s, p, deep) ==
-    /\ Do("Copy") /\ Writable /\ s \in Att \cap ES /\ p \in Att
+    /\ Do("Copy") /\ Writable /\ s \in Att \cap ES /\ p \in Att /\ Sub(s) \cap dirty = {}
     /\ IF s \in DS THEN p \in OS /\ deep ELSE p \in {Root} \cup GS
     /\ p \notin Sub(s)
     /\ LET S == IF deep THEN Sub(s) ELSE {s}
@@ -346,43 +387,92 @@ Copy(s, p, deep) ==
                                    THEN [owner |-> f[pg[srcp(r)].owner], name |-> pg[srcp(r)].name,
                                          props |-> {f[d] : d \in pg[srcp(r)].props}]
                                    ELSE fpg[r]]
+          /\ fopt' = [y \in ES |-> IF y \in New THEN TRUE ELSE fopt[y]]
           /\ Ok("Copy", [s |-> s, p |-> p, deep |-> deep, map |-> f, pmap |-> fp], New \cup {p})
-    /\ UNCHANGED <<held, mode>>
+    /\ UNCHANGED <<held, mode, dirty, saved>>
 
 \* ======================= close / open
-\* Workspace.close (workspace.py:184-218): reading self.groups purges dead GROUP references only,
-\* the root subtree is re-saved (a no-op for stored nodes), the handle is released.  `how` is the way
-\* the block was left (close() / normal exit of the with-block / exception escaping it).
+\* Workspace.close (workspace.py:184-218): reading self.groups purges dead GROUP references only, the root subtree is
+\* re-saved (a no-op for stored and linked nodes; it links the half-written nodes a failed operation left behind),
+\* the handle is released.  `how` is the way the block was left (close() / normal exit of the with-block / exception
+\* escaping it).
 Hows == {"close", "exit", "raise"}
-Close(how) ==
-    /\ Do("Close") /\ mode # "closed"
-    /\ LET S == IF ~Writable THEN {}
-                ELSE IF "CloseKeepsOrphans" \in Deviations THEN PurgeSet(GS)        \* as built
-                ELSE {x \in ES : fnode[x].on /\ x \notin FReach} \cup PurgeSet(GS) \* intended: no unreachable node survives a close
-       IN
-       /\ reg' = [s \in ES |-> IF s \in S /\ reg[s] = "dead" THEN "none" ELSE reg[s]]
-       /\ fnode' = [s \in ES |-> IF s \in S THEN NoNode ELSE fnode[s]]
-       /\ flink' = {l \in flink : l[1] \notin S}
-       /\ fpg' = DropOwners(fpg, S)
-       /\ Ok("Close", [how |-> how], S)
-    /\ mode' = "closed"
-    /\ UNCHANGED <<mem, kids, pg, held>>
+RECURSIVE FDownL(_, _, _)
+FDownL(fl, front, seen) ==
+    IF front = {} THEN seen
+    ELSE LET nxt == {l[2] : l \in {m \in fl : m[1] \in front}} \ seen
+         IN FDownL(fl, nxt, seen \cup nxt)
+
+CloseResult ==                                  \* what the final save leaves in the file
+    IF ~Writable THEN [fnode |-> fnode, flink |-> flink, fpg |-> fpg, reg |-> reg, foot |-> {}]
+    ELSE LET relink == {<<mem[x].par, x>> : x \in {y \in Att \cap ES : fnode[y].on /\ <<mem[y].par, y>> \notin flink}}
+             fl1 == flink \cup relink
+             reach1 == FDownL(fl1, {Root}, {Root})
+             S == IF "CloseKeepsOrphans" \in Deviations THEN PurgeSet(GS)                  \* as built
+                  ELSE {x \in ES : fnode[x].on /\ x \notin reach1} \cup PurgeSet(GS)      \* intended: no unreachable node survives
+         IN [fnode |-> [s \in ES |-> IF s \in S THEN NoNode ELSE fnode[s]],
+             flink |-> {l \in fl1 : l[1] \notin S},
+             fpg   |-> DropOwners(fpg, S),
+             reg   |-> [s \in ES |-> IF s \in S /\ reg[s] = "dead" THEN "none" ELSE reg[s]],
+             foot  |-> S \cup dirty \cup {mem[x].par : x \in dirty}]
 
 \* Workspace.open (workspace.py:1183-1215): registries reset, tree reloaded from Root
+LoadOf(fn, fl, fg) ==
+    LET R == FDownL(fl, {Root}, {Root}) IN
+    [mem  |-> [s \in ES |-> IF s \in R /\ fn[s].on
+                             THEN [par |-> (CHOOSE q \in Cont : <<q, s>> \in fl /\ q \in R),
+                                   name |-> fn[s].name, flag |-> fn[s].flag, val |-> fn[s].val]
+                             ELSE NoMem],
+     kids |-> [c \in Cont |-> IF c \in R THEN {l[2] : l \in {x \in fl : x[1] = c}} ELSE {}],
+     pg   |-> [p \in PS |-> IF fg[p].owner \in R \ {Root} THEN fg[p] ELSE NoPG],
+     reg  |-> [s \in ES |-> IF s \in R THEN "live" ELSE "none"]]
+
+Close(how) ==
+    /\ Do("Close") /\ mode # "closed"
+    /\ LET C == CloseResult IN
+       /\ reg' = C.reg /\ fnode' = C.fnode /\ flink' = C.flink /\ fpg' = C.fpg
+       /\ Ok("Close", [how |-> how], C.foot)
+    /\ mode' = "closed" /\ dirty' = {}
+    /\ UNCHANGED <<mem, kids, pg, held, fopt, saved>>
+
 Open(m) ==
     /\ Do("Open") /\ mode = "closed"
-    /\ LET R == FReach \ {Root} IN
-       /\ mem' = [s \in ES |-> IF s \in R /\ fnode[s].on
-                               THEN [par |-> (CHOOSE q \in Cont : <<q, s>> \in flink /\ q \in FReach),
-                                     name |-> fnode[s].name, flag |-> fnode[s].flag, val |-> fnode[s].val]
-                               ELSE NoMem]
-       /\ kids' = [c \in Cont |-> IF c \in FReach THEN {l[2] : l \in {x \in flink : x[1] = c}} ELSE {}]
-       /\ pg' = [p \in PS |-> IF fpg[p].owner \in R THEN fpg[p] ELSE NoPG]
-       /\ reg' = [s \in ES |-> IF s \in R THEN "live" ELSE "none"]
+    /\ LET L == LoadOf(fnode, flink, fpg) IN
+       /\ mem' = L.mem /\ kids' = L.kids /\ pg' = L.pg /\ reg' = L.reg
     /\ held' = {}
     /\ mode' = m
     /\ Ok("Open", [m |-> m], {})
-    /\ UNCHANGED <<fnode, flink, fpg>>
+    /\ UNCHANGED <<fnode, flink, fpg, Aux>>
+
+\* Workspace.save_as (workspace.py:1268-1298): close (final save), copy the bytes to the new path, re-open the SAME
+\* Workspace object on the new file.  The original file must stay as it was at that moment; the harness checks that
+\* its bytes never change afterwards and that later operations land in the new file.
+SaveAs ==
+    /\ Do("SaveAs") /\ Writable /\ ~saved
+    /\ LET C == CloseResult
+           L == LoadOf(C.fnode, C.flink, C.fpg) IN
+       /\ fnode' = C.fnode /\ flink' = C.flink /\ fpg' = C.fpg
+       /\ mem' = L.mem /\ kids' = L.kids /\ pg' = L.pg /\ reg' = L.reg
+       /\ Ok("SaveAs", [x |-> 0], C.foot)
+    /\ held' = {} /\ mode' = "r+" /\ dirty' = {} /\ saved' = TRUE
+    /\ UNCHANGED fopt
+
+\* shared.utils.fetch_active_workspace(ws, mode=m) used as a context manager (utils.py:95-123): when the workspace is
+\* open and m is contained in its mode ("r" is contained in "r+") the block runs on the workspace as it is; otherwise
+\* the workspace is closed (if open), re-opened in mode m, and closed again when the block is left - normally or
+\* because an exception escaped it (exc).
+Helper(m, exc) ==
+    /\ Do("Helper")
+    /\ IF mode # "closed" /\ (m = mode \/ (m = "r" /\ mode = "r+"))
+       THEN /\ Ok("Helper", [m |-> m, exc |-> exc, reopened |-> FALSE], {})
+            /\ UNCHANGED <<mem, kids, pg, reg, fnode, flink, fpg, held, mode, Aux>>
+       ELSE LET C == CloseResult
+                L == LoadOf(C.fnode, C.flink, C.fpg) IN
+            /\ fnode' = C.fnode /\ flink' = C.flink /\ fpg' = C.fpg
+            /\ mem' = L.mem /\ kids' = L.kids /\ pg' = L.pg /\ reg' = L.reg
+            /\ held' = {} /\ mode' = "closed" /\ dirty' = {}
+            /\ Ok("Helper", [m |-> m, exc |-> exc, reopened |-> TRUE], C.foot)
+            /\ UNCHANGED <<fopt, saved>>
 
 \* any operation that needs the file on a closed workspace raises Geoh5FileClosedError
 \* (workspace.py:1000-1008,1409-1441) and changes nothing
@@ -390,7 +480,7 @@ ClosedOps == {"create", "values", "rename", "remove", "listing"}
 CallClosed(op) ==
     /\ Do("CallClosed") /\ mode = "closed" /\ last.act # "CallClosed"
     /\ Refused("CallClosed", [op |-> op], "Geoh5FileClosedError")
-    /\ UNCHANGED <<mem, kids, pg, reg, fnode, flink, fpg, held, mode>>
+    /\ UNCHANGED <<mem, kids, pg, reg, fnode, flink, fpg, held, mode, Aux>>
 
 \* ======================= next-state relation
 Next ==
@@ -401,6 +491,10 @@ Next ==
     \/ \E s \in ES, b \in BOOLEAN : SetFlag(s, b)
     \/ \E d \in DS, v \in Vals : SetVal(d, v)
     \/ \E s \in ES, p \in Cont : Move(s, p)
+    \/ \E s \in ES : MoveSame(s) \/ StripOpt(s)
+    \/ \E o \in OS, n \in Names : AddDataFails(o, n)
+    \/ SaveAs
+    \/ \E m \in {"r+", "r"}, exc \in BOOLEAN : Helper(m, exc)
     \/ \E o \in OS, d \in DS, n \in Names : AddToGroup(o, d, n)
     \/ \E p \in PS, d \in DS : RemoveFromGroup(p, d)
     \/ \E p \in PS : RemovePG(p)
@@ -424,7 +518,8 @@ LoadTree == [s \in ES |-> IF s \in FReach /\ fnode[s].on
 LiveTree == [s \in ES |-> IF s \in Att THEN mem[s] ELSE NoMem]
 LoadPG == [p \in PS |-> IF fpg[p].owner \in FReach THEN fpg[p] ELSE NoPG]
 LivePG == [p \in PS |-> IF pg[p].owner \in Att THEN pg[p] ELSE NoPG]
-ReopenEqualsLive == mode # "closed" => LoadTree = LiveTree /\ LoadPG = LivePG
+\* (a data slot left half-written by a failed operation is exempt until the next close repairs it)
+ReopenEqualsLive == mode # "closed" => (\A s \in ES \ dirty : LoadTree[s] = LiveTree[s]) /\ LoadPG = LivePG
 
 \* --- C02: layout rules that depend on the history (the per-node rules are checked on the real file)
 LinksToNodes  == \A l \in flink : l[1] \in FReach => fnode[l[2]].on /\ (l[1] = Root \/ fnode[l[1]].on)
@@ -435,7 +530,7 @@ PGPropsAreChildren == \A p \in PS : fpg[p].owner # -1 =>
 NoOrphansWhenClosed == mode = "closed" => \A s \in ES : fnode[s].on => s \in FReach
 
 \* --- C03 (core part): write-through - stored content of every attached entity equals the live one
-WriteThrough == mode # "closed" => \A s \in Att \cap ES : fnode[s] = Node(s)
+WriteThrough == mode # "closed" => \A s \in (Att \cap ES) \ dirty : fnode[s] = Node(s)
 
 \* --- C05: nothing refers to an entity that is gone
 NoDanglingPG == \A p \in PS : pg[p].owner # -1 => pg[p].props \subseteq kids[pg[p].owner]
@@ -456,6 +551,9 @@ Footprint ==
 \* --- C10/C11: a closed or read-only workspace never changes the file
 FrozenFile == [][((mode \in {"closed", "r"} /\ mode' \in {"closed", "r"}) => (fnode' = fnode /\ flink' = flink /\ fpg' = fpg))]_vars
 
+\* nothing but a rewrite of a node's own attributes brings back optional attributes a foreign writer omitted
+OptStaysStripped == [][\A s \in ES : (fnode[s].on /\ ~fopt[s] /\ fnode'[s].on /\ fopt'[s]) => s \in last'.foot]_vars
+DirtyOnlyInRW == dirty # {} => mode = "r+"
 TypeOK ==
     /\ \A s \in ES : Live(s) => mem[s].par \in Cont
     /\ \A c \in Cont : kids[c] \subseteq ES
@@ -463,6 +561,7 @@ TypeOK ==
 
 \* ======================= export
 ExportState == PrintT(<<"ST", TLCFP(vw), TLCFP(<<vw, 1>>), ToJson([mem |-> mem, kids |-> kids, pg |-> pg, reg |-> reg,
-                        fnode |-> fnode, flink |-> flink, fpg |-> fpg, held |-> held, mode |-> mode])>>)
+                        fnode |-> fnode, flink |-> flink, fpg |-> fpg, held |-> held, mode |-> mode,
+                        dirty |-> dirty, fopt |-> fopt, saved |-> saved])>>)
 ExportTrans == PrintT(<<"TR", TLCFP(vw), TLCFP(<<vw, 1>>), TLCFP(vw'), TLCFP(<<vw', 1>>), ToJson(last')>>)
 =============================================================================
